@@ -32,12 +32,16 @@ type c12Src struct {
 	data   []byte
 	pos    int
 	failAt int // -1: never
+	err    error
 	closed int
 }
 
 func (s *c12Src) Name() string { return s.name }
 func (s *c12Src) Read(p []byte) (int, error) {
 	if s.failAt >= 0 && s.pos >= s.failAt {
+		if s.err != nil {
+			return 0, s.err
+		}
 		return 0, errC12Src
 	}
 	if s.pos >= len(s.data) {
@@ -164,6 +168,16 @@ func VerifC12Submit() {
 	case 3:
 		n := zv.Choose("stream-size", zv.Param("filesize", 2)+1)
 		stream = &c12Src{name: "s", data: make([]byte, n), failAt: c12Offset("stream-fails-at", n)}
+	}
+	// a failing source may fail with an error of its own or with one of io's
+	// sentinel errors (a truncated download reports io.ErrUnexpectedEOF)
+	if src := file; src != nil || stream != nil {
+		if src == nil {
+			src = stream
+		}
+		if zv.Choose("source-error", 2) == 1 {
+			src.err = io.ErrUnexpectedEOF
+		}
 	}
 	writerFails := zv.Choose("writer-fails", 2) == 1
 	// 0 no auth writer, 1 succeeds, 2 succeeds after looking at the body, 3 fails, 4 fails after looking at the body
